@@ -73,7 +73,30 @@ def _live(conds):
     return on and present
 
 
+def _token_extent(repo, rep):
+    # what visit_comment / visit_cdata get to see is the token the shallow
+    # parser cut out: a comment up to the first '-->', a CDATA section up to
+    # the first ']]>' (a ']]' inside ${...} must not end it)
+    from .c03 import _rex_table
+    _rex_table(repo, rep, rule="R06.1", only=(
+        "CDATA_CE", "UntilRSBs", "CommentCE", "Until2Hyphens", "UntilHyphen"))
+    # entity decoding inside ${...} is the engine's own pattern (references
+    # must be terminated by ';'), not a more liberal library routine
+    dh = repo.func("chameleon.utils.decode_htmlentities")
+    uses = [n for n in ast.walk(dh.node) if isinstance(n, ast.Call)
+            and src(n.func) in ("entity_re.subn", "entity_re.sub")
+            and n.args and src(n.args[0]) == "substitute_entity"]
+    other = [src(n.func) for n in ast.walk(dh.node) if isinstance(n, ast.Call)
+             and ("unescape" in src(n.func) or src(n.func).startswith("html."))]
+    rep.check(len(uses) == 1 and not other, "R06.3", dh.qualname, "character "
+              "references are decoded by entity_re / substitute_entity only "
+              "(no decoding of unterminated legacy names such as &not or "
+              "&copy)", construct="decoder-uses-entity-pattern",
+              where=L.where(dh), detail=str(other))
+
+
 def _dispatch(repo, rep):
+    _token_extent(repo, rep)
     for name in ("visit_text", "visit_comment", "visit_cdata"):
         f = repo.func(PROG + name)
         v = L.emission(repo, f.qualname).value
